@@ -6,15 +6,17 @@
 
 namespace util {
 
+// ToShortest is configured (float_to_string.cc) to use decimal notation for
+// decimal exponents in [-6, 21).  The longest outputs are therefore
+//   double: sign, "0.", 5 zeros, kBase10MaximalLength (17) digits   = 25, e.g. -0.0000012345678901234567
+//   float:  sign, 21 digits                                        = 22, e.g. -123456780000000000000
+// plus the null that StringBuilder writes when it goes out of scope.
 template <> struct ToStringBuf<double> {
-  // DoubleToStringConverter::kBase10MaximalLength + 1 for null paranoia.
-  static const unsigned kBytes = 19;
+  static const unsigned kBytes = 26;
 };
 
-// Single wasn't documented in double conversion, so be conservative and
-// say the same as double.
 template <> struct ToStringBuf<float> {
-  static const unsigned kBytes = 19;
+  static const unsigned kBytes = 23;
 };
 
 char *ToString(double value, char *to);
